@@ -9,6 +9,8 @@ package checks
 // every handle value it was ever given, including across Unexport/re-export.
 
 import (
+	"path"
+	"strings"
 	"fmt"
 	"testing"
 
@@ -74,9 +76,11 @@ func runFM(tb stat.TB, c fmCase, id, check string) {
 			if fm.Count() <= before && !live0 {
 				evictions = true
 			}
-			f, ok := fm.Get(h)
-			pp, _ := absnfs.VerifNodePath(f)
 			if id == "C05" {
+				// (only C05 resolves the fresh handle: C06 must not disturb whatever
+				// state Get keeps between lookups)
+				f, ok := fm.Get(h)
+				pp, _ := absnfs.VerifNodePath(f)
 				if !ok || pp != p {
 					if stat.Violate(tb, id, check, "allocate-returns-dead-handle", c, "op#%d Allocate(%s) returned %d but Get(%d) = (%q, %v)", i, p, h, h, pp, ok) {
 						return
@@ -117,7 +121,14 @@ func runFM(tb stat.TB, c fmCase, id, check string) {
 				continue
 			}
 			h := issued[op.Arg%len(issued)]
+			_, tracked := fm.VerifHandlePaths()[h]
 			f, ok := fm.Get(h)
+			if id == "C06" && ok && !tracked {
+				pp, _ := absnfs.VerifNodePath(f)
+				if stat.Violate(tb, id, check, "untracked-handle-not-stale", c, "op#%d Get(%d) = (%s, true) although the table no longer tracks that value", i, h, pp) {
+					return
+				}
+			}
 			if !ok {
 				usedAfterGone = true
 				continue
@@ -192,6 +203,7 @@ func runFH(tb stat.TB, c fhCase, id, check string) {
 	s := newSession(tb, v, absnfs.ExportOptions{AttrCacheTimeout: 1, AttrCacheSize: 2})
 	defer s.close()
 	fm := s.e.NFS.VerifFileMap()
+	v.SetRecording(true)
 	effMax := c.Max
 	if c.Max > 0 {
 		fm.VerifSetMax(c.Max)
@@ -264,9 +276,21 @@ func runFH(tb stat.TB, c fhCase, id, check string) {
 	useValue := func(i int, h uint64, proc uint32, args []byte, what string) (res *nfsx.Res, stop bool) {
 		want, seen := ghost[h]
 		hp, live := s.e.H.VerifLookupNodePath(h)
+		n0 := v.NumCalls()
 		res = s.nfs(proc, args)
 		if id != "C06" || !seen {
 			return res, false
+		}
+		// backend log: the request may touch only the path the value was given
+		// for (and, for LOOKUP, names below it), whatever the table claims
+		for _, call := range v.Calls()[n0:] {
+			for _, bp := range call.Paths {
+				bp = path.Clean("/" + bp)
+				if bp == want || (proc == nfsx.ProcLookup && strings.HasPrefix(bp, strings.TrimSuffix(want, "/")+"/")) {
+					continue
+				}
+				return res, stat.Violate(tb, id, check, "request-served-against-foreign-path", c, "op#%d %s through value %d (given to the client for %s, table: %q live=%v): backend call %s", i, what, h, want, hp, live, call)
+			}
 		}
 		if !live {
 			usedGone = true
